@@ -146,6 +146,42 @@ theorem corrupt_rejected (dateOk : String → Bool) (j : J) (h : corrupt j = tru
   obtain ⟨h1, h2, h3, h4, h5, h6, h7, h8⟩ := valid_json_structural dateOk j hv
   simp [corrupt, structuralB, conjuncts, h1, h2, h3, h4, h5, h6, h7, h8] at h
 
+theorem nodupB_iff : ∀ (l : List J), nodupB l = true ↔ l.Nodup
+  | [] => by simp [nodupB]
+  | x :: xs => by
+    simp only [nodupB, Bool.and_eq_true, Bool.not_eq_true', List.nodup_cons, nodupB_iff xs]
+    constructor
+    · rintro ⟨h1, h2⟩
+      refine ⟨?_, h2⟩
+      intro hm
+      have : xs.contains x = true := by rw [List.contains_iff_mem]; exact hm
+      rw [this] at h1; cases h1
+    · rintro ⟨h1, h2⟩
+      refine ⟨?_, h2⟩
+      cases hc : xs.contains x with
+      | false => rfl
+      | true => rw [List.contains_iff_mem] at hc; exact absurd hc h1
+
+/-- the ID clauses in plain words: on each axis the IDs of a valid document are pairwise distinct
+    and no ID is the empty text -/
+theorem valid_json_ids (dateOk : String → Bool) (j : J) (h : validateJson dateOk j = .valid) :
+    (idsOf j "rows").Nodup ∧ (idsOf j "columns").Nodup ∧
+    (J.str "") ∉ idsOf j "rows" ∧ (J.str "") ∉ idsOf j "columns" := by
+  obtain ⟨_, _, _, _, _, h6, h7, _⟩ := valid_json_structural dateOk j h
+  simp only [idsDistinctB, Bool.and_eq_true, nodupB_iff] at h7
+  simp only [idsNonEmptyB, Bool.and_eq_true, List.all_eq_true] at h6
+  refine ⟨h7.1, h7.2, ?_, ?_⟩
+  · intro hm
+    simp only [idsOf, List.mem_filterMap] at hm
+    obtain ⟨r, hr, hg⟩ := hm
+    have := h6.1 r hr
+    simp [idNonEmpty, hg, J.truthy] at this
+  · intro hm
+    simp only [idsOf, List.mem_filterMap] at hm
+    obtain ⟨r, hr, hg⟩ := hm
+    have := h6.2 r hr
+    simp [idNonEmpty, hg, J.truthy] at this
+
 /-- the instance for the mutation grammar: whatever list of mutations produced the document -/
 theorem mutated_valid_structural (dateOk : String → Bool) (base : J) (ms : List Mutation)
     (h : validateJson dateOk (applyAll ms base) = .valid) : structuralB (applyAll ms base) = true := by
@@ -509,6 +545,220 @@ theorem valid_h5_structural_partial (dateOk : String → Bool) (h : H5)
           rw [hnone] at hvb
           simp at hvb
 
+/-! ### HDF5: what the library writes is valid -/
+
+theorem mdLens_fold_some (h : H5) (n : Nat) : ∀ (cs : List (Path × Node)) (acc : Option Bool),
+    acc ≠ none → (∀ c ∈ cs, (h.lenOf c.1).isSome = true) →
+    cs.foldl (fun acc c =>
+      match acc with
+      | none => none
+      | some false => some false
+      | some true =>
+        match h.lenOf c.1 with
+        | none => none
+        | some k => some (k == n)) acc ≠ none
+  | [], acc, ha, _ => by simpa using ha
+  | c :: cs, acc, ha, hc => by
+    simp only [List.foldl_cons]
+    apply mdLens_fold_some h n cs
+    · cases acc with
+      | none => exact absurd rfl ha
+      | some b =>
+        cases b with
+        | false => simp
+        | true =>
+          have := hc c (by simp)
+          cases hl : h.lenOf c.1 with
+          | none => rw [hl] at this; cases this
+          | some k => simp
+    · intro c' hc'; exact hc c' (List.mem_cons_of_mem _ hc')
+
+theorem mdLens_some {h : H5} {p : Path} {n : Nat} (hg : h.get p = some .group)
+    (hc : (h.children p).all (fun c => (h.lenOf c.1).isSome) = true) : mdLens h p n ≠ none := by
+  unfold mdLens
+  rw [hg]
+  apply mdLens_fold_some
+  · simp
+  · rw [List.all_eq_true] at hc; exact hc
+
+/-- **Every tree with the writer's shape invariants (`writerTreeB`; the harness checks that each file
+    `to_hdf5` really wrote satisfies it) is reported valid.** -/
+theorem written_h5_valid (dateOk : String → Bool) (h : H5) (hw : writerTreeB dateOk h = true) :
+    validateH5 dateOk h = .valid := by
+  simp only [writerTreeB, Bool.and_eq_true] at hw
+  obtain ⟨⟨⟨⟨⟨⟨⟨⟨⟨⟨w1, w2⟩, w3⟩, w4⟩, w5⟩, w6⟩, w7⟩, w8⟩, w9⟩, w10⟩, w11⟩ := hw
+  have hfv : h.attr "format-version" = some (.ints [2, 1]) := by simpa using w2
+  cases hurl : h.attr "format-url" with
+  | none => rw [hurl] at w1; cases w1
+  | some vurl =>
+  cases hty : h.attr "type" with
+  | none => rw [hty] at w3; cases w3
+  | some vty =>
+  cases hnnz : h.attr "nnz" with
+  | none => rw [hnnz] at w4; cases w4
+  | some vnnz =>
+  cases hgb : h.attr "generated-by" with
+  | none => rw [hgb] at w5; cases w5
+  | some vgb =>
+  cases hid : h.attr "id" with
+  | none => rw [hid] at w6; cases w6
+  | some vid =>
+  cases hcd : h.attr "creation-date" with
+  | none => rw [hcd] at w7; cases w7
+  | some vcd =>
+  cases hsh : h.attr "shape" with
+  | none => rw [hsh] at w11; cases w11
+  | some vsh =>
+  rw [hurl] at w1; rw [hty] at w3; rw [hnnz] at w4; rw [hgb] at w5; rw [hcd] at w7; rw [hsh] at w11
+  cases vurl <;> simp only [Bool.false_eq_true] at w1
+  cases vty <;> simp only [Bool.false_eq_true] at w3
+  cases vnnz <;> simp only [Bool.false_eq_true] at w4
+  cases vgb <;> simp only [Bool.false_eq_true] at w5
+  cases vcd <;> simp only [Bool.false_eq_true] at w7
+  cases hlo : h.lenOf ["observation", "ids"] with
+  | none => rw [hlo] at w11; cases vsh <;> simp at w11 <;> split at w11 <;> simp at w11
+  | some n =>
+  cases hls : h.lenOf ["sample", "ids"] with
+  | none => rw [hlo, hls] at w11; cases vsh <;> simp at w11 <;> split at w11 <;> simp at w11
+  | some m =>
+  rw [hlo, hls] at w11
+  cases vsh with
+  | ints l =>
+    match l, w11 with
+    | [r, c], w11 =>
+      simp only [Bool.and_eq_true, beq_iff_eq] at w11
+      obtain ⟨⟨⟨⟨⟨e1, e2⟩, g1⟩, g2⟩, c1⟩, c2⟩ := w11
+      have hvb : (versionBlock h).isNone = false := by
+        have h1 := mdLens_some (n := n) g1 c1
+        have h2 := mdLens_some (n := m) g2 c2
+        simp only [versionBlock, hfv, mdV210, w9, hlo, hls]
+        cases hm1 : mdLens h ["observation", "metadata"] n with
+        | none => exact absurd hm1 h1
+        | some b =>
+          cases b with
+          | false => simp
+          | true =>
+            cases hm2 : mdLens h ["sample", "metadata"] m with
+            | none => exact absurd hm2 h2
+            | some b2 => simp
+      unfold validateH5
+      simp only [hvb, Bool.false_eq_true, if_false]
+      rw [verdictOf_valid]
+      intro x hx
+      simp only [checksH, List.mem_append, List.mem_cons, List.not_mem_nil, or_false, List.mem_map] at hx
+      rw [List.all_eq_true] at w8 w10
+      rcases hx with ((hx | ⟨p, hp, rfl⟩) | ⟨p, hp, rfl⟩) | hx
+      · rcases hx with rfl | rfl | rfl | rfl | rfl | rfl | rfl | rfl
+        · simp [attrCheck, hurl, hUrl, w1]
+        · simp [attrCheck, hfv, hVersion, versionSet]
+        · simp [attrCheck, hty, hType, w3]
+        · simp [attrCheck, hsh, hShape, unpackA, aIsInt]
+        · simp [attrCheck, hnnz, hNnz, w4]
+        · simp [attrCheck, hgb, hGeneratedBy, w5]
+        · simp [attrCheck, hid]
+        · simp [attrCheck, hcd, hDate, w7]
+      · rw [w8 p hp]
+      · rw [w10 p hp]
+      · simp only [shapeBlock, hsh, unpackA, List.mem_cons, List.not_mem_nil, or_false] at hx
+        rcases hx with rfl | rfl
+        · simp [idsLenCheck, hlo, aEqNat, e1]
+        · simp [idsLenCheck, hls, aEqNat, e2]
+  | str s => simp at w11
+  | int i => simp at w11
+  | real q => simp at w11
+  | reals q => simp at w11
+  | other => simp at w11
+
+/-! ### `holds` is true of the model's own observations -/
+
+def loadObsOf (j : J) : LoadObs :=
+  match loadJson j with
+  | some t => { ok := true, obs := strIds t.obs, samp := strIds t.samp, grid := t.grid }
+  | none => { ok := false, obs := [], samp := [], grid := [] }
+
+/-- what the model predicts the harness observes for a document -/
+def modelObs (dateOk : String → Bool) (j : J) (isBase : Bool) : JsonObs :=
+  { isBase := isBase, verdict := validateJson dateOk j, load := some (loadObsOf j) }
+
+theorem strIds_length : ∀ (l : List J), l.all isStr = true → (strIds l).length = l.length
+  | [], _ => rfl
+  | x :: xs, h => by
+    simp only [List.all_cons, Bool.and_eq_true] at h
+    have ih := strIds_length xs h.2
+    cases x <;> simp [isStr] at h
+    simp only [strIds, List.filterMap_cons, List.length_cons] at ih ⊢
+    omega
+
+theorem chk_true (c : String) (b : Bool) (h : b = true) : Codec.chk c b = none := by
+  simp [Codec.chk, h]
+
+/-- **`holds` (JSON) on the model.**  For every document `j` — in particular every result of any
+    number of mutations — and for a base flag that is only raised for a document the writer denotes
+    for a table of the domain, the predicate the harness evaluates on the real code is true of the
+    model's verdict and load result. -/
+theorem model_holds (dateOk : String → Bool) (j : J) (isBase : Bool)
+    (hb : isBase = true → ∃ t : WTable, t.wfb dateOk = true ∧ j = docOf t) :
+    holdsJson j (modelObs dateOk j isBase) = none := by
+  have c1 : (!isBase || validateJson dateOk j == .valid) = true := by
+    cases hi : isBase with
+    | false => simp
+    | true =>
+      obtain ⟨t, ht, rfl⟩ := hb hi
+      simp [written_json_valid dateOk t ht]
+  have c2 : (!(corrupt j) || validateJson dateOk j != .valid) = true := by
+    cases hc : corrupt j with
+    | false => simp
+    | true => simp [corrupt_rejected dateOk j hc]
+  have c3 : (!(validateJson dateOk j == .valid && numericElem j && idsAreStrings j && dataIsList j) ||
+      loadMatches j (loadObsOf j)) = true := by
+    cases hg : (validateJson dateOk j == .valid && numericElem j && idsAreStrings j && dataIsList j) with
+    | false => simp
+    | true =>
+      simp only [Bool.and_eq_true, beq_iff_eq] at hg
+      obtain ⟨⟨⟨hv, hn⟩, hi⟩, hd⟩ := hg
+      obtain ⟨t, hl, ho, hs, ⟨so, ss⟩, hds, hgl, hgr, hdg⟩ := valid_json_loads_partial dateOk j hv hn hi hd
+      have lo := strIds_length _ so
+      have ls := strIds_length _ ss
+      have hall : t.grid.all (fun r => r.length == t.samp.length) = true := by
+        rw [List.all_eq_true]; intro r hr; simp [hgr r hr]
+      simp only [Bool.not_true, Bool.false_or, loadMatches, loadObsOf, hl, ← ho, ← hs, lo, ls, hds, hgl,
+        hdg, hall, beq_self_eq_true, Bool.and_self]
+  simp only [holdsJson, modelObs, Codec.allV, List.foldl_cons, List.foldl_nil]
+  rw [chk_true _ _ c1, chk_true _ _ c2, chk_true _ _ c3]
+  rfl
+
+def modelObsH (dateOk : String → Bool) (h : H5) (isBase : Bool) : H5Obs :=
+  { isBase := isBase, verdict := validateH5 dateOk h }
+
+/-- **`holds` (HDF5) on the model, `_partial`**: guard = the conjuncts the validator does not look
+    at are true of the tree (`uncheckedConjunctsH`).  Without the guard the clause
+    `corrupt_rejected` fails (the `h5_*_witness` theorems). -/
+theorem model_holds_h5_partial (dateOk : String → Bool) (h : H5) (isBase : Bool)
+    (hb : isBase = true → writerTreeB dateOk h = true)
+    (hu : (uncheckedConjunctsH h).all (fun p => p.2) = true) :
+    holdsH5 h (modelObsH dateOk h isBase) = none := by
+  have c1 : (!isBase || validateH5 dateOk h == .valid) = true := by
+    cases hi : isBase with
+    | false => simp
+    | true => simp [written_h5_valid dateOk h (hb hi)]
+  have c2 : (checkedH h || validateH5 dateOk h != .valid) = true := by
+    cases hv : validateH5 dateOk h with
+    | valid =>
+      obtain ⟨h1, h2, h3, h4, h5⟩ := valid_h5_structural_partial dateOk h hv
+      simp [checkedH, checkedConjunctsH, h1, h2, h3, h4, h5]
+    | invalid => simp
+    | crash => simp
+  have c3 : (!(corruptH h) || validateH5 dateOk h != .valid) = true := by
+    cases hv : validateH5 dateOk h with
+    | valid =>
+      obtain ⟨h1, h2, h3, h4, h5⟩ := valid_h5_structural_partial dateOk h hv
+      simp [corruptH, structuralHB, checkedH, checkedConjunctsH, h1, h2, h3, h4, h5, hu]
+    | invalid => simp
+    | crash => simp
+  simp only [holdsH5, modelObsH, Codec.allV, List.foldl_cons, List.foldl_nil]
+  rw [chk_true _ _ c1, chk_true _ _ c2, chk_true _ _ c3]
+  rfl
+
 /-! ### concrete tables: non-vacuity and the witnesses of the known finding -/
 
 def okDate : String → Bool := fun _ => true
@@ -525,8 +775,11 @@ def wH : H5 := h5Of wT ["taxonomy"] []
 example : wT.wfb okDate = true := by decide
 example : validateJson okDate (docOf wT) = .valid := written_json_valid okDate wT (by decide)
 example : structuralB (docOf wT) = true := by decide
-example : validateH5 okDate wH = .valid := by decide
+example : writerTreeB okDate wH = true := by decide
+example : validateH5 okDate wH = .valid := written_h5_valid okDate wH (by decide)
 example : structuralHB wH = true := by decide
+example : holdsJson (docOf wT) (modelObs okDate (docOf wT) true) = none :=
+  model_holds okDate _ true (fun _ => ⟨wT, by decide, rfl⟩)
 
 /-- instances of the one theorem: typical single and double mutations are corrupt, hence refused -/
 example : corrupt (apply (.dupId .rows 0 1) (docOf wT)) = true := by decide
